@@ -23,10 +23,22 @@ class _OneShot:
         return (x for x in self.items)
 
 
+class _Container:
+    """an nbunch given as a set or a dict (any container of nodes is allowed)"""
+
+    def __init__(self, c):
+        self.c = c
+        self.items = list(c)
+
+    def fresh(self):
+        return type(self.c)(self.c)
+
+
 def static_graph(G, nodes_all, P, t):
     S = nx.DiGraph() if G.is_directed() else nx.Graph()
     for n, d in G.nodes(data=True):
-        S.add_node(n, **d)
+        S.add_node(n)
+        S.nodes[n].update(d)        # attribute keys need not be identifiers
     if t is None:
         for u in nodes_all:
             for v in nodes_all:
@@ -85,22 +97,24 @@ def check(G, conf, nodes_all, P, t, known_nodes, z):
 
     nb_menu = [('none', None)] + [('single', n) for n in known_nodes] + \
               [('list', list(dict.fromkeys([known_nodes[0], known_nodes[-1]]))), ('list+unknown', [known_nodes[0], z]),
-               ('unknown-only', [z]), ('empty', []), ('iterator', _OneShot([known_nodes[-1], z, known_nodes[0]]))]
+               ('unknown-only', [z]), ('empty', []), ('iterator', _OneShot([known_nodes[-1], z, known_nodes[0]])),
+               ('set', _Container({known_nodes[0], z})), ('dict', _Container({known_nodes[-1]: 1, z: 2}))]
 
     def nb_known(nb):
         if nb is None:
             return None
-        if isinstance(nb, _OneShot):
+        if isinstance(nb, (_OneShot, _Container)):
             return list(dict.fromkeys(n for n in nb.items if n in S))
         if isinstance(nb, list):
             return [n for n in nb if n in S]
         return [nb]
 
     def arg(nb):
-        return nb.fresh() if isinstance(nb, _OneShot) else nb
+        return nb.fresh() if isinstance(nb, (_OneShot, _Container)) else nb
 
     # ---- interaction listings
     listing = [('interactions', lambda nb: G.interactions(nb, **kw), 'out'),
+               ('interactions(nbunch, t) positional', lambda nb: G.interactions(nb, t), 'out'),
                ('interactions_iter', lambda nb: list(G.interactions_iter(nb, **kw)), 'out'),
                ('dn.interactions', lambda nb: dn.interactions(G, nb, **kw), 'out')]
     if directed:
@@ -132,7 +146,7 @@ def check(G, conf, nodes_all, P, t, known_nodes, z):
                 bad(entry, kind, sorted(gotc.elements(), key=repr), sorted(want, key=repr), **feat)
 
     # ---- neighbourhoods
-    nbr = [('neighbors', lambda n: G.neighbors(n, **kw), 'succ'), ('neighbors_iter', lambda n: list(G.neighbors_iter(n, **kw)), 'succ'),
+    nbr = [('neighbors', lambda n: G.neighbors(n, **kw), 'succ'), ('neighbors(n, t) positional', lambda n: G.neighbors(n, t), 'succ'), ('neighbors_iter', lambda n: list(G.neighbors_iter(n, **kw)), 'succ'),
            ('dn.neighbors', lambda n: list(dn.neighbors(G, n, **kw)), 'succ')]
     if directed:
         nbr += [('successors', lambda n: G.successors(n, **kw), 'succ'), ('successors_iter', lambda n: list(G.successors_iter(n, **kw)), 'succ'),
@@ -179,7 +193,7 @@ def check(G, conf, nodes_all, P, t, known_nodes, z):
             return True
         return False
 
-    degs = [('degree', lambda nb: G.degree(nb, **kw), 'deg'), ('degree_iter', lambda nb: dict(G.degree_iter(nb, **kw)), 'deg'),
+    degs = [('degree', lambda nb: G.degree(nb, **kw), 'deg'), ('degree(nbunch, t) positional', lambda nb: G.degree(nb, t), 'deg'), ('degree_iter', lambda nb: dict(G.degree_iter(nb, **kw)), 'deg'),
             ('dn.degree', lambda nb: dn.degree(G, nb, **kw), 'deg')]
     if directed:
         degs += [('in_degree', lambda nb: G.in_degree(nb, **kw), 'in'), ('in_degree_iter', lambda nb: dict(G.in_degree_iter(nb, **kw)), 'in'),
@@ -201,7 +215,9 @@ def check(G, conf, nodes_all, P, t, known_nodes, z):
 
     # ---- nodes
     want_nodes = sorted(S, key=repr) if t is None else sorted((n for n in S if S.degree(n) > 0), key=repr)
-    for entry, fn in (('nodes', lambda: G.nodes(**kw)), ('nodes_iter', lambda: list(G.nodes_iter(**kw))), ('dn.nodes', lambda: dn.nodes(G, **kw))):
+    for entry, fn in (('nodes', lambda: G.nodes(**kw)), ('nodes_iter', lambda: list(G.nodes_iter(**kw))), ('dn.nodes', lambda: dn.nodes(G, **kw)),
+                      ('nodes(t) positional', lambda: G.nodes(t)), ('nodes_iter(data=True)', lambda: list(G.nodes_iter(data=True, **kw))),
+                      ('dn.nodes(G, t) positional', lambda: dn.nodes(G, t))):
         ok, got = guarded(entry, fn)
         if ok and sorted(got, key=repr) != want_nodes:
             bad(entry, 'node-set', got, want_nodes)
@@ -225,7 +241,7 @@ def check(G, conf, nodes_all, P, t, known_nodes, z):
         ok, got = guarded('dn.is_directed', lambda: dn.is_directed(G))
         if ok and got is not directed:
             bad('dn.is_directed', 'boolean', got, directed)
-    cnts = [('number_of_nodes', lambda: G.number_of_nodes(**kw)), ('dn.number_of_nodes', lambda: dn.number_of_nodes(G, **kw))]
+    cnts = [('number_of_nodes', lambda: G.number_of_nodes(**kw)), ('number_of_nodes(t) positional', lambda: G.number_of_nodes(t)), ('dn.number_of_nodes', lambda: dn.number_of_nodes(G, **kw))]
     if not directed:
         cnts.append(('order', lambda: G.order(**kw)))
     for entry, fn in cnts:
@@ -236,7 +252,7 @@ def check(G, conf, nodes_all, P, t, known_nodes, z):
     # ---- numbers of interactions
     m = S.number_of_edges()
     loops = nx.number_of_selfloops(S)
-    for entry, fn in (('number_of_interactions', lambda: G.number_of_interactions(**kw)), ('size', lambda: G.size(**kw)),
+    for entry, fn in (('number_of_interactions', lambda: G.number_of_interactions(**kw)), ('size', lambda: G.size(**kw)), ('size', lambda: G.size(t)),
                       ('dn.number_of_interactions', lambda: dn.number_of_interactions(G, **kw))):
         ok, got = guarded(entry, fn)
         if ok and got != m:
